@@ -163,6 +163,8 @@ def tr_format(node, meta, indent, compact, via_codec=False):
     t = {'kind': 'format', 'tree': ft, 'indent': -2 if indent is None else indent,
          'compact': compact, 'exc': '', 'text': '', 're': {'ok': False, 'exc': 'not run'}, 'text2': ''}
     tree = Tree(node, metadata=dict(meta or {}))
+    if not meta and ft['top'] != ab.NULL and (len(ft['br']) + indent if isinstance(indent, int) else 0) % 3 == 0:
+        tree = node          # format() also takes the bare (var, branches) pair, as its docstring shows
     if via_codec:
         codec = penman.PENMANCodec()
         fmt, prs = codec.format, codec.parse
@@ -737,7 +739,8 @@ _WORK = os.path.join(os.path.dirname(os.path.dirname(os.path.abspath(__file__)))
 
 
 def _clidir():
-    d = os.path.join(_WORK, f'cli.{os.getpid()}')
+    # one scratch directory per check run (removed by the framework when the check ends), one sub-directory per driver process
+    d = os.path.join(_WORK, 'scratch.' + os.environ.get('VERIF_RUN_ID', str(os.getppid())), str(os.getpid()))
     os.makedirs(d, exist_ok=True)
     return d
 
